@@ -18,19 +18,19 @@ TECHNIQUE = ("Coq proofs about the capacity-instrumented Gallina model of extrac
              "The model is tied to the real code by differential execution of a malformed stream under ASan/UBSan (risky "
              "cases in a forked child with a CPU/RSS watchdog); the model must predict the class of every case (result "
              "dump, exception class, overrun site, UB site).")
-LEVEL_TEXT = ("see coq/Props/Properties_C03.v: c03_decode_safe (every wf schema, every byte string < 2^32: Ok, exception or "
-              "one of the two memory errors of the unrepaired fixed-width extractor; never another overrun, Diverge or Fuel), "
-              "c03_decode_digits_partial, c03_decode_safe_nodata_partial, c03_decode_total, c03_extract_element_safe, "
-              "c03_encode_safe_partial, c03_fast_atoi_safe_partial; refutations c03_fixed_width_refuted, "
-              "c03_encode_overflow_refuted, c03_fast_atoi_ub_refuted, c03_datetime_ub_refuted; on the pre-repair code "
-              "c03_val_overflow_orig_refuted, c03_header_overflow_orig_refuted, c03_group_hang_orig_refuted")
-LEVEL_NOTE = ("Partial: extract_element_fixed_width, output[] of encode(f8String&), fast_atoi's missing range test and the "
-              "date/time parsers still violate the property (known findings). Memory safety of the REAL code is not "
-              "proved: it is observed under ASan/UBSan on the generated stream and tied to the model's capacity checks; "
-              "reads of uninitialised stack bytes (tag buffer after a fixed-width extraction) are not observable with "
-              "ASan and are excluded from the stream. Float parsers belong to C08; date/time texts are canonical or "
-              "predicted UB.")
-DESIGN_REF = "DESIGN.md section 4, Codec group, C03; findings F06 (repaired d48d8ce, residue fixed-width), F07, F08 (repaired a0d41df), F09 (fast_atoi narrowed by a8219b1)"
+LEVEL_TEXT = ("see coq/Props/Properties_C03.v: c03_decode_safe (every wf schema, every byte string < 2^32, Length/data pairs "
+              "included: Ok or a library exception -- no overrun, no uninitialised read, no Diverge, no Fuel), "
+              "c03_decode_total, c03_extract_element_safe, c03_extract_fixed_width_safe, c03_encode_safe_partial, "
+              "c03_fast_atoi_safe_partial; refutations c03_encode_overflow_refuted, c03_fast_atoi_ub_refuted, "
+              "c03_datetime_ticks_refuted; on the pre-repair definitions c03_val_overflow_orig_refuted, "
+              "c03_header_overflow_orig_refuted, c03_group_hang_orig_refuted, c03_fixed_width_orig_refuted, "
+              "c03_datetime_ub_orig_refuted, c03_chksum_align_orig_refuted")
+LEVEL_NOTE = ("Partial: output[] of encode(f8String&), fast_atoi's missing range test and the 64-bit tick product of the "
+              "date/time constructors still violate the property (known findings). Memory safety of the REAL code is not "
+              "proved: it is observed under ASan/UBSan on the generated stream and tied to the model's capacity checks. "
+              "Float parsers belong to C08; date/time texts in decoded messages are canonical or predicted UB (garbage "
+              "dates are probed through DTPARSE only, their printed value is not modelled).")
+DESIGN_REF = "DESIGN.md section 4, Codec group, C03; findings F06 (repaired d48d8ce + ce1e2cc), F07 (open), F08 (repaired a0d41df), F09 (fast_atoi narrowed by a8219b1, checksum load repaired 9d9ce26), date/time (repaired da4ab8c, tick product open)"
 PROPS_FILE = "Props/Properties_C03.v"
 COQ_TARGETS = ["Props/Properties_C03.vo", "Extract/Extract_C03.vo"]
 TRUSTED_BASE = ["Coq 8.16.1 kernel (coqc), vm_compute for the witnesses", "Extraction with ExtrOcamlBasic, no Extract Constant; OCaml 4.13.1",
@@ -41,14 +41,12 @@ TRUSTED_BASE = ["Coq 8.16.1 kernel (coqc), vm_compute for the witnesses", "Extra
                 "harness/h_c03.cpp (fork isolation, crash summary from the sanitizer report, CPU/RSS hang detection) + "
                 "harness/h_codec.cpp + meta_dump.hpp; ocaml/prelude.ml + ocaml/c03_driver.ml; vlib/codecgen.py + this suite"]
 ASSUMPTIONS = ["ASan reports the first write past a stack array (redzones >= 32 bytes): an overrun never goes unnoticed",
-               "the model follows /repo a8219b1 (extract_element bounded, decode_group leaves its loop on an empty element, "
-               "fast_atoi with sign and without shifts)",
+               "the model follows /repo 094581d (extract_element and extract_element_fixed_width bounded, decode_group leaves "
+               "its loop on an empty element, fast_atoi with sign and without shifts, memcpy word loads in calc_chksum, "
+               "date/time parsers without shifts and with a clamped month)",
                "texts of float/date/time typed fields in generated inputs are the unchanged canonical texts of a valid "
                "message (their parsers are C08/C09's subject) or texts for which the model predicts UB in parse_decimal / "
                "time_to_epoch; int texts are arbitrary and fast_atoi<int> UB is predicted",
-               "no generated input makes decode read tag[] beyond the bytes written (Length field followed by a longer "
-               "tag of fewer than 2049 digits): that read of uninitialised stack is unobservable under ASan (model class "
-               "OOB 4, C06's defect)",
                "a run that burns > 2 s CPU or grows by > 1 GB is a hang (legitimate 8 KB decodes take milliseconds); every HANG "
                "verdict has to be reproduced in fresh processes (once for inputs of the hang shape, twice otherwise)"]
 RULE = ("valid messages generated from the dumped metadata (wire bytes built independently in Python, and RT through the "
@@ -105,13 +103,11 @@ def risky(case, rest):
     try:
         if w[0] in ("DEC", "REENC"):
             data = bytes.fromhex(w[2]) if w[2] != "-" else b""
-            return fw_violates(_meta_of(case), data) or (w[0] == "REENC" and len(data) > 8000)
+            return w[0] == "REENC" and len(data) > 8000
         if w[0] == "ENC":
             return len(rest) > 16000
         if w[0] == "ATOI":
             return py_atoi_ub(bytes.fromhex(w[1]) if w[1] != "-" else b"")
-        if w[0] == "CHKSUM":
-            return int(w[1]) % 4 != 0 and len(w[2]) >= 16
         if w[0] == "DTPARSE":
             return bool(py_dt_ub({"ts": 22, "time": 23, "date": 24}[w[1]], bytes.fromhex(w[2]) if w[2] != "-" else b""))
     except Exception:
@@ -345,13 +341,12 @@ def _i32(x):
 
 
 def _pd(chars):
-    ub, r = False, 0
+    """parse_decimal since /repo da4ab8c: to = to * 10 + (ch - '0'), no shifts (<= 4 chars: no overflow)"""
+    r = 0
     for ch in chars:
-        if ub or r < 0:
-            return True, r
         c = ch - 256 if ch >= 128 else ch
         r = r * 10 + (c - 48)
-    return ub, r
+    return False, r
 
 
 def _i64(x):
@@ -359,10 +354,9 @@ def _i64(x):
 
 
 def _tte_ub(year, mon, mday, hour, mi, sec, acc=0):
-    if mon < 0 or mon > 12:
-        return True
+    cmon = min(max(mon, 0), 11)           # clamped for the table lookup since da4ab8c
     ty = 0 if year == 0 else year - 70
-    t1 = MON_DAYS[mon] + (0 if mday == 0 else mday - 1) + ty * 365
+    t1 = MON_DAYS[cmon] + (0 if mday == 0 else mday - 1) + ty * 365
     q = abs(ty + 2) // 4 * (1 if ty + 2 >= 0 else -1)
     t2 = t1 + q
     tdays = t2 - 1 if (year != 0 and abs(year) % 4 == 0 and mon < 2) else t2
@@ -427,8 +421,6 @@ def admissible(meta, data, allowed=None, ub_ok=False, int_ub_ok=False):
         v = val.split(b"\0")[0]
         if ft in INT_TYPES:
             if py_atoi_ub(v) and not (ub_ok or int_ub_ok):
-                return False
-            if ft == 2 and f != 9 and i + 1 < len(toks) and len(tag) < len(toks[i + 1][0]) < 2049:
                 return False
         elif ub_ok and py_dt_ub(ft, v) is True:
             continue
@@ -731,9 +723,10 @@ def gen_schema(rng, tier, meta, px, cs):
                 cs.append(Case("%sDECW %s %s" % (px, mode, data.hex()), "length-text-plain"))
             add(data, "length-text", mode=mode)
 
-    # the fixed-width extractor's unbounded tag write (NOT repaired): a Length field followed by a
-    # run of digits; 2049 and more go past tag[2048]
-    for nd_ in (2049, 2050, 3000):
+    # the fixed-width extractor (bounded and terminating since ce1e2cc): a Length field followed by a
+    # data tag of any length -- longer than the Length field's own tag (formerly an uninitialised
+    # read), 2047 digits (fit), 2048 and more (formerly past tag[2048], now a failed extraction)
+    for nd_ in (3, 4, 7, 40, 2046, 2047, 2048, 2049, 2050, 3000):
         for owner, lf, df in pairs[:k(3, 8)]:
             mt = owner if owner in meta.msgs else rng.choice(types)
             mt, hdr, body, trl, w = valid(mtype=mt)
@@ -1055,7 +1048,7 @@ def c_chksum_align(case, r, m):
 
 CLASSIFIERS = {"value-ge-capacity": c_value_overflow, "header-token-ge-capacity": c_header_overflow,
                "encoded-size-gt-output": c_encode_overflow, "group-hang-shape": c_group_hang,
-               "fixed-width-tag-ge-2049": c_fw_tag, "fast-atoi-ub": c_atoi_ub, "datetime-parse-ub": c_datetime_ub, "chksum-misaligned": c_chksum_align}
+               "fixed-width-tag-ge-2049": c_fw_tag, "fast-atoi-ub": c_atoi_ub, "datetime-parse-ub": c_datetime_ub, "datetime-tick-overflow": c_datetime_ub, "chksum-misaligned": c_chksum_align}
 
 
 def extra_search(rng, seeds, tier):
